@@ -6,17 +6,47 @@ From Coq Require Import QArith.
 Open Scope Z_scope.
 
 (* ---- Manhattan over Z ---- *)
-Definition z_manhattan := manhattan Z.add Z.sub Z.abs.
+Definition z_manhattan := manhattan Z.add Z.sub Z.ltb.
+Ltac split_ifs := repeat match goal with |- context [if ?b then _ else _] => destruct b eqn:? end.
 
 Lemma z_manhattan_sym x1 x2 y1 y2 : z_manhattan x1 x2 y1 y2 = z_manhattan x2 x1 y2 y1.
-Proof. unfold z_manhattan, manhattan. lia. Qed.
+Proof. unfold z_manhattan, manhattan, absdiff. split_ifs; lia. Qed.
 Lemma z_manhattan_zero x1 x2 y1 y2 : z_manhattan x1 x2 y1 y2 = 0 <-> (x1 = x2 /\ y1 = y2).
-Proof. unfold z_manhattan, manhattan. lia. Qed.
+Proof. unfold z_manhattan, manhattan, absdiff. split_ifs; lia. Qed.
 Lemma z_manhattan_nonneg x1 x2 y1 y2 : 0 <= z_manhattan x1 x2 y1 y2.
-Proof. unfold z_manhattan, manhattan. lia. Qed.
+Proof. unfold z_manhattan, manhattan, absdiff. split_ifs; lia. Qed.
 Lemma z_manhattan_triangle ax ay bx by_ cx cy :
   z_manhattan ax cx ay cy <= z_manhattan ax bx ay by_ + z_manhattan bx cx by_ cy.
-Proof. unfold z_manhattan, manhattan. lia. Qed.
+Proof. unfold z_manhattan, manhattan, absdiff. split_ifs; lia. Qed.
+
+Lemma z_manhattan_abs x1 x2 y1 y2 : z_manhattan x1 x2 y1 y2 = Z.abs (x1 - x2) + Z.abs (y1 - y2).
+Proof. unfold z_manhattan, manhattan, absdiff. split_ifs; lia. Qed.
+
+(* unsigned arguments: with natural-number (never negative, truncated) subtraction the formula still
+   gives |x1 - x2| + |y1 - y2| — it only ever subtracts the smaller from the larger *)
+Definition n_manhattan := manhattan N.add N.sub N.ltb.
+Lemma n_manhattan_exact (x1 x2 y1 y2 : N) :
+  Z.of_N (n_manhattan x1 x2 y1 y2) = Z.abs (Z.of_N x1 - Z.of_N x2) + Z.abs (Z.of_N y1 - Z.of_N y2).
+Proof.
+  unfold n_manhattan, manhattan, absdiff.
+  destruct (N.ltb x2 x1) eqn:E1; destruct (N.ltb y2 y1) eqn:E2;
+    try apply N.ltb_lt in E1; try apply N.ltb_ge in E1; try apply N.ltb_lt in E2; try apply N.ltb_ge in E2; lia.
+Qed.
+(* arithmetic modulo 2^64 (what the compiled code does with unsigned 64-bit operands) *)
+Definition wsub (a b : Z) : Z := (a - b) mod 2 ^ 64.
+Definition wadd (a b : Z) : Z := (a + b) mod 2 ^ 64.
+Definition w_manhattan := manhattan wadd wsub Z.ltb.
+Definition w_manhattan_abs := manhattan_abs wadd wsub (fun a => a).     (* abs of an unsigned value is itself *)
+Lemma w_manhattan_exact x1 x2 y1 y2 :
+  0 <= x1 < 2 ^ 32 -> 0 <= x2 < 2 ^ 32 -> 0 <= y1 < 2 ^ 32 -> 0 <= y2 < 2 ^ 32 ->
+  w_manhattan x1 x2 y1 y2 = Z.abs (x1 - x2) + Z.abs (y1 - y2).
+Proof.
+  intros. unfold w_manhattan, manhattan, absdiff, wadd, wsub.
+  assert (H64 : 2 ^ 64 = 18446744073709551616) by reflexivity. assert (H32 : 2 ^ 32 = 4294967296) by reflexivity.
+  rewrite H64 in *. rewrite H32 in *.
+  destruct (x2 <? x1) eqn:E1; destruct (y2 <? y1) eqn:E2;
+    repeat rewrite Z.mod_small by lia; lia.
+Qed.
 
 (* ---- squared Euclidean over Z ---- *)
 Definition z_euclid_sq := euclid_sq Z.add Z.sub Z.mul.
